@@ -25,6 +25,12 @@ Definition call_body (d : Z) (cc : N) (absorb_return : bool) (m : M unit) : M un
            | (Fail fl, s') => (Fail fl, set_depth d s')
            end.
 
+(* try/catch of one class of runtime error (NotDefinedError, ArrayDirectAccessError in this context) *)
+Definition is_not_defined (k : ecls) : bool := match k with ENotDefined => true | _ => false end.
+Definition is_array_direct (c : N) (k : ecls) : bool := match k with EArrayDirect c' => N.eqb c' c | _ => false end.
+Definition catch_cls {A} (m : M A) (want : ecls -> bool) (h : fail -> M A) : M A :=
+  catch m (fun fl => match fl with FErr d => if want (d_cls d) then Some (h fl) else None | _ => None end).
+
 (* --pedantic: the two run-time sites (assignment / INPUT to an undeclared name) *)
 Definition ped_guard (pedantic : bool) (t : token) : M unit :=
   if pedantic then pedantic_error t else ret Datatypes.tt.
